@@ -247,13 +247,17 @@ structure NR where
   clients : List Nat := []                 -- client operations issued and not yet returned
   fails : List String := []
   labels : Nat := 0
+  ideal : Bool := true    -- replay on the property's own reading of the protocol (edge gone once answered) rather than on the extracted switches
 
 def NR.fail (r : NR) (m : String) : NR := { r with fails := r.fails ++ [m] }
 
 def NR.tokOfMid (r : NR) (mid : Nat) : Option Nat := (r.mids.find? (·.1 == mid)).map (·.2)
 
+def NR.stepf (r : NR) (n : Net.Net) (l : Net.NLabel) : Option Net.Net :=
+  if r.ideal then Net.stepWith true true n l else Net.step? n l
+
 def NR.apply (r : NR) (l : Net.NLabel) (what : String) : NR :=
-  match Net.step? r.net l with
+  match r.stepf r.net l with
   | some n' => { r with net := n', labels := r.labels + 1 }
   | none => r.fail s!"the protocol model does not allow `{what}` here"
 
@@ -271,7 +275,7 @@ def nrLine (r : NR) (ws : List String) : NR :=
   | ["N", "askStart", a, b, mid] =>
     match a.toNat?, b.toNat?, mid.toNat? with
     | some a, some b, some mid =>
-      match Net.step? r.net (.ask a b) with
+      match r.stepf r.net (.ask a b) with
       | none => r.fail s!"askStart {a} {b}: in the model actor {a} is dead or already awaits an ask (asks inside hooks are sequential)"
       | some n' =>
         let newEv := n'.ev.drop r.net.ev.length
@@ -335,20 +339,21 @@ def nrLine (r : NR) (ws : List String) : NR :=
     | (a, p) :: _ => { r with expectDl := [] }.fail s!"the ask of actor {a} closes the cycle {p}: a deadlock panic was due but did not happen"
   | _ => r
 
-partial def netLoop (h : IO.FS.Stream) (cur : Option (String × NR)) (ntr nfail nlab : Nat) : IO Unit := do
+partial def netLoop (h : IO.FS.Stream) (cur : Option (String × NR × NR)) (ntr nfail ndiff nlab : Nat) : IO Unit := do
   let line ← h.getLine
   if line.isEmpty then
-    IO.println s!"netreplay-summary histories={ntr} labels={nlab} fails={nfail}"
+    IO.println s!"netreplay-summary histories={ntr} labels={nlab} fails={nfail} diffs={ndiff}"
     return ()
   let ws := words line
   match ws, cur with
-  | ["trace", name], _ => netLoop h (some (name, {})) ntr nfail nlab
-  | ["endtrace"], some (name, r) =>
+  | ["trace", name], _ => netLoop h (some (name, { ideal := true }, { ideal := false })) ntr nfail ndiff nlab
+  | ["endtrace"], some (name, r, ri) =>
     let r := if r.clients.isEmpty then r else r.fail s!"client operations {r.clients} never returned"
     for f in r.fails.take 3 do IO.println s!"NETFAIL {name} {f}"
-    netLoop h none (ntr + 1) (nfail + (if r.fails.isEmpty then 0 else 1)) (nlab + r.labels)
-  | _, some (name, r) => netLoop h (some (name, nrLine r ws)) ntr nfail nlab
-  | _, none => netLoop h none ntr nfail nlab
+    for f in ri.fails.take 3 do IO.println s!"NETDIFF {name} {f}"
+    netLoop h none (ntr + 1) (nfail + (if r.fails.isEmpty then 0 else 1)) (ndiff + (if ri.fails.isEmpty then 0 else 1)) (nlab + r.labels)
+  | _, some (name, r, ri) => netLoop h (some (name, nrLine r ws, nrLine ri ws)) ntr nfail ndiff nlab
+  | _, none => netLoop h none ntr nfail ndiff nlab
 
 partial def loop (h : IO.FS.Stream) (st : Option Sys) : IO Unit := do
   let line ← h.getLine
@@ -368,7 +373,7 @@ partial def loop (h : IO.FS.Stream) (st : Option Sys) : IO Unit := do
       loop h (some s1)
     | none => IO.println "! bad-spawn"; loop h none
   | "tables" :: rest => Rsactor.Tables.run rest; loop h st
-  | ["netreplay"] => netLoop h none 0 0 0
+  | ["netreplay"] => netLoop h none 0 0 0 0
   | "monitor" :: names => monitorLoop h ((names.map (·.splitOn ",")).flatten) none 0 0 0
   | _ =>
     match st with
